@@ -11,11 +11,26 @@ static LIVE: AtomicUsize = AtomicUsize::new(0);
 static PEAK: AtomicUsize = AtomicUsize::new(0);
 static INSTALLED: AtomicUsize = AtomicUsize::new(0);
 
+static HARD_CAP: AtomicUsize = AtomicUsize::new(usize::MAX);
+
+/// Exit status of a process that allocated more than its hard cap (see `set_hard_cap`).
+pub const EXIT_MEMORY_CAP: i32 = 87;
+
+/// Live-byte limit of this process.  A worker that runs into it ends at once with
+/// `EXIT_MEMORY_CAP` (no unwinding, no further allocation), so that a case with exponential
+/// memory cannot take the machine down; the supervisor treats it like a hang.
+pub fn set_hard_cap(bytes: usize) {
+    HARD_CAP.store(bytes, Relaxed);
+}
+
 #[inline]
 fn add(n: usize) {
     let live = LIVE.fetch_add(n, Relaxed) + n;
     if live > PEAK.load(Relaxed) {
         PEAK.fetch_max(live, Relaxed);
+        if live > HARD_CAP.load(Relaxed) {
+            unsafe { libc::_exit(EXIT_MEMORY_CAP) }
+        }
     }
 }
 
